@@ -221,7 +221,7 @@ pub fn config_for(prop: &str, tier: Tier) -> BConfig {
 pub fn run(rc: &RunCtx) -> Outcome {
     let prop = rc.prop.clone();
     let cfg = config_for(&prop, rc.tier);
-    let layouts = corpus::corpus(&prop, rc.tier, rc.seed);
+    let mut layouts = corpus::corpus(&prop, rc.tier, rc.seed);
     // every generated declaration must be rule-valid: anything else is a generator bug
     for (id, l) in &layouts {
         let v = rules::layout_verdict(l);
@@ -229,8 +229,65 @@ pub fn run(rc: &RunCtx) -> Outcome {
             inconclusive(&format!("generator bug: layout {} is not rule-valid ({:?}):\n{}", id, v, render_layout(l, &RenderOpts::default())));
         }
     }
+    // C11: overhang probes — the same layouts with one field moved into the storage headroom
+    // [N, storage). They are expected to be rejected; any probe the macro accepts is compiled and
+    // run like the others against the N-bit model.
+    let mut probes_total = 0usize;
+    let mut probes_accepted = 0usize;
+    if prop == "C11" {
+        let ro = RenderOpts::default();
+        let mut probes: Vec<Layout> = Vec::new();
+        for (_, l) in &layouts {
+            let st = l.storage_bits();
+            if st == l.base_bits || l.fields.is_empty() {
+                continue;
+            }
+            for target in [l.base_bits, st - 1] {
+                let fi = (probes.len() + target as usize) % l.fields.len();
+                let f = &l.fields[fi];
+                let delta = target as i64 - f.highest_bit() as i64;
+                if delta <= 0 {
+                    continue;
+                }
+                let mut nl = l.clone();
+                for r in nl.fields[fi].ranges.iter_mut() {
+                    r.lo = (r.lo as i64 + delta) as u32;
+                    r.hi = (r.hi as i64 + delta) as u32;
+                }
+                if rules::layout_verdict(&nl).is_invalid() {
+                    probes.push(nl);
+                }
+            }
+        }
+        let mut seen = std::collections::HashSet::new();
+        probes.retain(|l| seen.insert(render_layout(l, &ro)));
+        probes_total = probes.len();
+        let items: Vec<(usize, String)> = probes.iter().enumerate().map(|(i, l)| (i, render_layout(l, &ro))).collect();
+        let mut accepted = std::collections::BTreeSet::new();
+        for mp in ["dev", "release"] {
+            let v = crate::vprops::check_decls(rc, "overhang", &items, mp);
+            for (i, errs) in v {
+                if errs.is_empty() {
+                    accepted.insert(i);
+                }
+            }
+        }
+        probes_accepted = accepted.len();
+        let base = layouts.len();
+        for (n, i) in accepted.iter().enumerate() {
+            if n >= 64 {
+                break;
+            }
+            layouts.push((base + n, probes[*i].clone()));
+        }
+    }
     let out = run_corpus(rc, &cfg, &layouts, "b", &[], None);
-    summarize(rc, &cfg, &layouts, out)
+    let mut o = summarize(rc, &cfg, &layouts, out);
+    if prop == "C11" {
+        o.coverage["overhang_probes_generated"] = json!(probes_total);
+        o.coverage["overhang_probes_accepted_by_the_macro_and_run"] = json!(probes_accepted);
+    }
+    o
 }
 
 pub fn summarize(rc: &RunCtx, cfg: &BConfig, layouts: &[(usize, Layout)], out: BOut) -> Outcome {
